@@ -1,6 +1,8 @@
 """Abstractions (proven contracts) and executor hooks shared by the checks."""
 from engine_m import oblig
 from engine_m.models import Abstraction, BoundAbstraction
+from engine_m.sym import En, IV, Opaque, mk_int
+import z3
 
 def _d2d(ex):
     return Abstraction('days_to_date', 'contract_days_to_date',
@@ -16,3 +18,12 @@ oblig.ABSTRACTION_TABLE['days_to_date/uf'] = _d2d_uf
 oblig.ABSTRACTION_TABLE['days_to_doy/uf'] = _doy_uf
 
 oblig.ABSTRACTION_TABLE['days_to_date/bound'] = lambda ex: BoundAbstraction('days_to_date')
+
+# date_to_days through its contract (C01 obligation 2): Ok(k) exactly for valid in-range triples, k = closed-form day count
+def _dtd_build(ex, args, res):
+    ok, k = res
+    disc = IV(z3.If(ok.t, 0, 1), 'isize', 0, 1)
+    return En(disc, {0: [k], 1: [Opaque('AstrolabeError')]}, 'Result')
+oblig.ABSTRACTION_TABLE['date_to_days'] = lambda ex: Abstraction('date_to_days', 'contract_date_to_days', [('ok', 'bool'), ('k', 'i32', -2**31, 2**31 - 1)], build=_dtd_build)
+# the closed-form day count as an uninterpreted pure function (sound over-approximation; used where only congruence matters)
+oblig.ABSTRACTION_TABLE['spec_rd/uf'] = lambda ex: Abstraction('spec_rd', None, [('rd', 'i64', -2**62, 2**62)], always=True)
